@@ -327,6 +327,11 @@ class Prop:
             types['@main'] = body
             types['@other'] = '{\n  "back": @main\n}'
             lines.append('proj all %s N %s' % (spec(body, types), hx('@main')))
+        # schemas created with AreKeysOptionalByDefault: a member without an `optional` rule is optional there
+        for body, want in [('{\n  "a": @main\n}', 'ok'), ('{\n  "a": @other\n}', 'ok'), ('{\n  "a": @main // {optional: false}\n}', '104')]:
+            types = {'@main': body, '@other': '{\n  "back": @main\n}'}
+            hand.append((body + '   [keys optional by default]', want))
+            lines.append('proj all %s N %s optdef' % (spec(body, types), hx('@main')))
         bad = []
         self.hand_cases = len(lines)
         for l, o, (body, want) in zip(lines, vf.run_impl(lines), hand):
